@@ -569,7 +569,7 @@ def _norm_test(g, node):
     return unparse(a), flip
 
 
-def _loop_exit_tests(g, L):
+def _loop_exit_tests(g, L, tests=None):
     """{(text, label)}: the outcomes of the loop's own condition (the tests
     reached from the head before any statement) which leave the loop"""
     body = g.loop_body[L.id] | {L.id}
@@ -585,11 +585,15 @@ def _loop_exit_tests(g, L):
         if n.kind == 'join':
             todo += [e.dst for e in g.succ[nid] if e.label != 'exc']
         elif n.kind == 'test':
+            if tests is not None:
+                tests.append(n)
             text, flip = _norm_test(g, n)
             for e in g.succ[nid]:
                 if e.label not in ('T', 'F'):
                     continue
-                if e.dst in body:
+                d = g.nodes[e.dst]
+                if e.dst in body and not (d.kind == 'stmt' and
+                                          isinstance(d.ast, ast.Break)):
                     if not e.back:
                         todo.append(e.dst)
                 else:
@@ -597,6 +601,26 @@ def _loop_exit_tests(g, L):
                         ('F' if e.label == 'T' else 'T')
                     out.add((text, lab))
     return out
+
+
+def _raises_uncaught(body):
+    """a `raise` statement in the statement list which is not inside the body
+    of a try with handlers (nested functions are not entered)"""
+    for a in body:
+        if isinstance(a, ast.Raise):
+            return True
+        if isinstance(a, (ast.FunctionDef, ast.AsyncFunctionDef,
+                          ast.ClassDef)):
+            continue
+        if isinstance(a, ast.Try):
+            parts = ([] if a.handlers else [a.body]) + \
+                [h.body for h in a.handlers] + [a.orelse, a.finalbody]
+        else:
+            parts = [getattr(a, k) for k in ('body', 'orelse', 'finalbody')
+                     if isinstance(getattr(a, k, None), list)]
+        if any(_raises_uncaught(p) for p in parts):
+            return True
+    return False
 
 
 def r05_18(prog, rep, rid='R05.18'):
@@ -634,7 +658,20 @@ def r05_18(prog, rep, rid='R05.18'):
             continue
         L = g.nodes[w.loops[-1]]
         body = g.loop_body[L.id] | {L.id}
-        exits = _loop_exit_tests(g, L)
+        ctests = []
+        exits = _loop_exit_tests(g, L, ctests)
+        # what the loop's own condition reads: plain names, dotted
+        # attributes, and the flags asked by `<x>.is_set()`
+        cond_reads, cond_flags = set(), set()
+        for t in ctests:
+            for x in ast.walk(t.ast):
+                if isinstance(x, (ast.Name, ast.Attribute)) and dotted(x):
+                    cond_reads.add(dotted(x))
+                if isinstance(x, ast.Call) and \
+                        isinstance(x.func, ast.Attribute) and \
+                        x.func.attr in ('is_set', 'isSet'):
+                    cond_flags.add(unparse(x.func.value))
+        cond_reads -= {'self'}
         for h in hs:
             # walk the handler; stop at the loop head; do not follow an
             # outcome of the loop's own termination test
@@ -670,10 +707,46 @@ def r05_18(prog, rep, rid='R05.18'):
                             'T': 'true', 'F': 'false'}[e.label]),)
                     todo.append((e.dst, p))
             inside = h.id in body
-            ok = inside and not leaves
+            # the handler makes the loop's own condition fail: it changes a
+            # name the condition reads, or sets the flag the condition asks
+            ends = None
+            stmts = [g.nodes[x].ast for x in seen
+                     if x in body and x != L.id and
+                     g.nodes[x].kind == 'stmt' and g.nodes[x].ast is not None]
+            for c in [c for a in list(stmts) for c in calls_in(a)]:
+                if call_name(c).startswith('self.') and \
+                        call_name(c).count('.') == 1:
+                    hf = prog.resolve_call(f, c, comp)
+                    if hf is not None and hf.cls is not None and \
+                            hf.node is not f.node:
+                        stmts += [x for x in walk(hf.node)
+                                  if isinstance(x, ast.stmt) and
+                                  x is not hf.node]
+                        if _raises_uncaught(hf.node.body):
+                            ends = 'the handler calls %s, which can raise' \
+                                % hf.qual
+            for a in stmts if inside else []:
+                tg = a.targets if isinstance(a, ast.Assign) else \
+                    [a.target] if isinstance(a, (ast.AugAssign,
+                                                 ast.AnnAssign)) else []
+                for t in tg:
+                    for x in (t.elts if isinstance(t, (ast.Tuple, ast.List))
+                              else [t]):
+                        if dotted(x) and dotted(x) in cond_reads:
+                            ends = ends or 'the handler changes `%s`, which ' \
+                                'the condition of the loop reads' % dotted(x)
+                for c in calls_in(a):
+                    if isinstance(c.func, ast.Attribute) and \
+                            c.func.attr == 'set' and not c.args and \
+                            unparse(c.func.value) in cond_flags:
+                        ends = ends or 'the handler sets `%s`, the flag ' \
+                            'which ends the loop' % unparse(c.func.value)
+            ok = inside and not leaves and not ends
             why = ''
             if not inside:
                 why = 'the handler is outside of the loop'
+            elif ends and not leaves:
+                why = ends
             elif leaves:
                 n, path = leaves[0]
                 why = 'the handler leaves the loop%s' % (
@@ -2297,23 +2370,33 @@ def _awaited_local(g, atom, tid, lab):
         return None, atom
     here = set(guards(g, tid))
     aws = []
+    real = 0
     shown = atom
     for d, v in defs:
         if v is None or not (d.kind == 'stmt' and
                              isinstance(d.ast, ast.Assign) and
                              len(d.ast.targets) == 1):
             return None, atom
+        extra = [(t, l) for t, l in guards(g, d.id) if (t, l) not in here]
         if _falsy_const_expr(v):
-            # why the local got the falsy constant
-            extra = [(t, l) for t, l in guards(g, d.id) if (t, l) not in here]
-            if not extra:
-                return None, atom
+            # why the local got the falsy constant (a preset without a
+            # condition of its own stays when the other definitions are
+            # not reached: their guards say why)
             for t, l in extra:
                 aw = _awaited(_resolve_names(g, g.nodes[t].ast, t), l)
                 if aw is None:
                     return None, atom
                 aws.append(aw)
         else:
+            real += 1
+            # the local keeps an earlier (falsy) value when this definition
+            # is not reached
+            for t, l in extra:
+                aw = _awaited(_resolve_names(g, g.nodes[t].ast, t),
+                              'F' if l == 'T' else 'T')
+                if aw is None:
+                    return None, atom
+                aws.append(aw)
             rv = _resolve_names(g, v, d.id)
             aw = _awaited(rv, 'F')
             if aw is None:
@@ -2321,7 +2404,7 @@ def _awaited_local(g, atom, tid, lab):
             aws.append(aw)
             if len(aw[1]) >= max(len(x[1]) for x in aws):
                 shown = rv
-    if not aws or len({x[0] for x in aws}) != 1:
+    if not aws or not real or len({x[0] for x in aws}) != 1:
         return None, atom
     return max(aws, key=lambda x: len(x[1])), shown
 
@@ -4932,4 +5015,212 @@ SILENT += [
         (_TO, _R5_TO_FIN, "        task['state'] = task['target_state']\n        for t in [task]:\n            self.advance(t, publish=True, push=True)\n")]),
     dict(name='R05.4b/R05.17 final hand-on of _handle_task in the else clause of the directive loop', edits=[
         (_TO, _R5_TO_FIN, "        else:\n            task['state'] = task['target_state']\n            self.advance(task, publish=True, push=True)\n")]),
+]
+
+# ------------------------------------------------------------------------------
+# round 6: R05.18 (work loop survives every work_cb error) and the shape of
+# the parking test of R05.8 in seed C12-r11 (entry looked up once, `pilot`
+# taken from it by a conditional expression)
+#
+_R6_LOOP = ("        while not self._term.is_set():\n"
+            "            try:\n"
+            "                ret = self.work_cb()\n"
+            "                if not ret:\n"
+            "                    break\n"
+            "            except:\n"
+            "                self._log.exception('work cb error [ignored]')\n")
+_R6_LOOKUP = "                    pilot = self._pilots.get(pid, {}).get('pilot')\n"
+_R6_RELEASE_ALL = (
+    "                self._update_pilot_states(pilots)\n\n"
+    "                for pilot in pilots:\n\n"
+    "                    pid = pilot['uid']\n\n"
+    "                    # if we have any early_bound tasks waiting for this pilots,\n"
+    "                    # advance them now\n"
+    "                    early_tasks = self._early.get(pid)\n"
+    "                    if early_tasks:\n")
+_R6_RELEASE_ACTIVE = _R6_RELEASE_ALL.replace(
+    "                for pilot in pilots:\n",
+    "                usable = [p for p in pilots\n"
+    "                            if self._pilots[p['uid']]['state'] == rps.PMGR_ACTIVE]\n"
+    "                for pilot in usable:\n")
+
+MUTATIONS += [
+    dict(name='R05.18 error budget of the work loop is never reset (seed C05-i5)', rules=('R05.18',), edits=[
+        (_U, _R6_LOOP,
+         "        n_err = 0\n"
+         "        while not self._term.is_set():\n"
+         "            try:\n"
+         "                ret = self.work_cb()\n"
+         "                if not ret:\n"
+         "                    break\n"
+         "            except:\n"
+         "                n_err += 1\n"
+         "                self._log.exception('work cb error %d [ignored]', n_err)\n"
+         "                if n_err >= 5:\n"
+         "                    self._log.error('too many work cb errors - stop')\n"
+         "                    break\n")]),
+    dict(name='R05.18 five errors in a row end the worker thread (budget reset on success)', rules=('R05.18',), edits=[
+        (_U, _R6_LOOP,
+         "        n_err = 0\n"
+         "        while not self._term.is_set():\n"
+         "            try:\n"
+         "                ret = self.work_cb()\n"
+         "                if not ret:\n"
+         "                    break\n"
+         "                n_err = 0\n"
+         "            except:\n"
+         "                n_err += 1\n"
+         "                self._log.exception('work cb error [ignored]')\n"
+         "                if n_err < 5:\n"
+         "                    continue\n"
+         "                return\n")]),
+    dict(name='R05.18 assertion errors of work_cb are re-raised by the work loop', rules=('R05.18',), edits=[
+        (_U, _R6_LOOP,
+         "        while not self._term.is_set():\n"
+         "            try:\n"
+         "                ret = self.work_cb()\n"
+         "                if not ret:\n"
+         "                    break\n"
+         "            except Exception as e:\n"
+         "                self._log.exception('work cb error [ignored]')\n"
+         "                if isinstance(e, AssertionError):\n"
+         "                    raise\n")]),
+    dict(name='R05.18 handler terminates the component after an error (while True form)', rules=('R05.18',), edits=[
+        (_U, _R6_LOOP,
+         "        while True:\n"
+         "            if self._term.is_set():\n"
+         "                break\n"
+         "            try:\n"
+         "                ret = self.work_cb()\n"
+         "                if not ret:\n"
+         "                    break\n"
+         "            except:\n"
+         "                self._log.exception('work cb error')\n"
+         "                if self._errors_fatal:\n"
+         "                    break\n")]),
+    dict(name='R05.18 error count in the condition of the work loop', rules=('R05.18',), edits=[
+        (_U, _R6_LOOP,
+         "        n_err = 0\n"
+         "        while not self._term.is_set() and n_err < 5:\n"
+         "            try:\n"
+         "                ret = self.work_cb()\n"
+         "                if not ret:\n"
+         "                    break\n"
+         "            except:\n"
+         "                n_err += 1\n"
+         "                self._log.exception('work cb error [ignored]')\n")]),
+    dict(name='R05.18 handler sets the termination flag after too many errors', rules=('R05.18',), edits=[
+        (_U, _R6_LOOP,
+         "        n_err = 0\n"
+         "        while not self._term.is_set():\n"
+         "            try:\n"
+         "                ret = self.work_cb()\n"
+         "                if not ret:\n"
+         "                    break\n"
+         "            except:\n"
+         "                n_err += 1\n"
+         "                self._log.exception('work cb error [ignored]')\n"
+         "                if n_err > 4:\n"
+         "                    self._term.set()\n")]),
+    dict(name='R05.18 handler delegates to a helper which re-raises assertion errors', rules=('R05.18',), edits=[
+        (_U, _R6_LOOP, _R6_LOOP.replace(
+            "            except:\n                self._log.exception('work cb error [ignored]')\n",
+            "            except Exception as e:\n                self._work_error(e)\n")),
+        (_U, "    def _work_loop(self, sync):\n",
+         "    def _work_error(self, e):\n"
+         "        self._log.exception('work cb error')\n"
+         "        if isinstance(e, AssertionError):\n"
+         "            raise e\n\n"
+         "    def _work_loop(self, sync):\n")]),
+    dict(name='R05.8 release only for active pilots, parking test on a conditional expression (shape of C12-r11)', rules=('R05.8',), edits=[
+        (_TS, _R6_LOOKUP,
+         "                    entry = self._pilots.get(pid)\n"
+         "                    pilot = entry['pilot'] if entry else None\n"),
+        (_TS, _R6_RELEASE_ALL, _R6_RELEASE_ACTIVE)]),
+]
+
+SILENT += [
+    # R05.18
+    dict(name='R05.18 handler leaves the loop only on the loop\'s own termination test', edits=[
+        (_U, _R6_LOOP, _R6_LOOP +
+         "                if self._term.is_set():\n"
+         "                    break\n")]),
+    dict(name='R05.18 errors counted for the log only, explicit continue', edits=[
+        (_U, _R6_LOOP,
+         "        n_err = 0\n"
+         "        while not self._term.is_set():\n"
+         "            try:\n"
+         "                ret = self.work_cb()\n"
+         "                if not ret:\n"
+         "                    break\n"
+         "            except:\n"
+         "                n_err += 1\n"
+         "                if n_err % 100 == 1:\n"
+         "                    self._log.exception('work cb error %d [ignored]', n_err)\n"
+         "                continue\n")]),
+    dict(name='R05.18 while True form, call in the test, handler in a helper method', edits=[
+        (_U, _R6_LOOP,
+         "        while True:\n"
+         "            if self._term.is_set():\n"
+         "                break\n"
+         "            try:\n"
+         "                if not self.work_cb():\n"
+         "                    break\n"
+         "            except:\n"
+         "                self._work_error()\n"),
+        (_U, "    def _work_loop(self, sync):\n",
+         "    def _work_error(self):\n"
+         "        self._log.exception('work cb error [ignored]')\n\n"
+         "    def _work_loop(self, sync):\n")]),
+    dict(name='R05.18 termination flag read into a local in the loop condition and in the handler', edits=[
+        (_U, _R6_LOOP,
+         "        while True:\n"
+         "            done = self._term.is_set()\n"
+         "            if done:\n"
+         "                break\n"
+         "            try:\n"
+         "                ret = self.work_cb()\n"
+         "                if not ret:\n"
+         "                    break\n"
+         "            except:\n"
+         "                self._log.exception('work cb error [ignored]')\n")]),
+    dict(name='R05.18 while True form with the termination test first, repeated in the handler', edits=[
+        (_U, _R6_LOOP,
+         "        while True:\n"
+         "            if self._term.is_set():\n"
+         "                break\n"
+         "            try:\n"
+         "                ret = self.work_cb()\n"
+         "                if not ret:\n"
+         "                    break\n"
+         "            except:\n"
+         "                self._log.exception('work cb error [ignored]')\n"
+         "                if not self._term.is_set():\n"
+         "                    continue\n"
+         "                break\n")]),
+    dict(name='R05.18 try / except / finally in the work loop', edits=[
+        (_U, _R6_LOOP, _R6_LOOP +
+         "            finally:\n"
+         "                self._log.debug('work cb done')\n")]),
+    # R05.8: parking test
+    dict(name='R05.8 parking test on a conditional expression over the cached entry (seed C12-r11)', edits=[
+        (_TS, _R6_LOOKUP,
+         "                    entry = self._pilots.get(pid)\n"
+         "                    pilot = entry['pilot'] if entry else None\n")]),
+    dict(name='R05.8 parking test on a local set in both arms of an if', edits=[
+        (_TS, _R6_LOOKUP,
+         "                    known = self._pilots.get(pid)\n"
+         "                    if known:\n"
+         "                        pilot = known['pilot']\n"
+         "                    else:\n"
+         "                        pilot = None\n")]),
+    dict(name='R05.8 parking test `entry and entry[...]`', edits=[
+        (_TS, _R6_LOOKUP,
+         "                    entry = self._pilots.get(pid)\n"
+         "                    pilot = entry and entry['pilot']\n")]),
+    dict(name='R05.8 parking test: local preset to None, overwritten when the entry exists', edits=[
+        (_TS, _R6_LOOKUP,
+         "                    pilot = None\n"
+         "                    if pid in self._pilots:\n"
+         "                        pilot = self._pilots[pid]['pilot']\n")]),
 ]
